@@ -191,6 +191,16 @@ def r1_r2_pair(ctx, a, b):
     accepted = {(k[0], k[1], shape(k[2], keep), shape(k[3], keep)): v
                 for k, v in ACCEPTED.items() if k[0] == a}
     one = ONE_SIDED.get((a, b), {})
+    # synchronous private helpers both twins inherit from a common base
+    # class: a call to one may be inlined on both sides (sa/twin.py)
+    shared = [k for k in m.mro(ca)[1:] if k in m.mro(cb)[1:]]
+    twin.HELPERS = {}
+    for k in reversed(shared):
+        for hn, hf in k.methods.items():
+            if hn.startswith('_') and not hn.startswith('__') and \
+                    not hf.is_async and hn not in ca.methods and \
+                    hn not in cb.methods:
+                twin.HELPERS[hn] = hf.node
     names_a = set(ca.methods)
     names_b = {k for k in cb.methods}
     back = {v: k for k, v in RENAMED.items()}
